@@ -206,6 +206,10 @@ public:
   DecodingTable(uint sigma) {
     this->nodes = 0;
     this->subtrees = new DecodingTree *[sigma];
+    for (uint i = 0; i < 256; i++) {
+      ventry[i].length = ((i & 240) >> 4);
+      ventry[i].bits = ((i & 15) + 1);
+    }
   };
 
   /** @returns the chunk length used in the table */
